@@ -331,6 +331,7 @@ def _k3(run: Run, w: World) -> None:
         return u.attrs["dimension"] if isinstance(u, Obj) else u
 
     q1, q2 = quantity("q1", D["L"]), quantity("q2", D["T"])
+    q0, q1b = quantity("q0", D["L"], "zero"), quantity("q1b", D["L"])
     raw = quantity("raw", D["C"], cls="SymQuantity")
     sym, fun_, idx_, sbl = dimensioned("Symbol", "s", D["M"]), dimensioned("Function", "f", D["T"]), dimensioned("IndexedSymbol", "x", D["P"]), dimensioned("Symbolic", "y", D["F"])
     vfull, vmixed, vzero = qvector("v", D["A"], ["finite", "finite"]), qvector("w", D["F"], ["zero", "finite", "zero"]), qvector("z", Dim(), ["zero", "zero"])
@@ -342,11 +343,17 @@ def _k3(run: Run, w: World) -> None:
         ("sequence against one dimension", [q1, sym, 7], D["C"]), ("sequence against a tuple", [q1, q2, sbl], [D["M"], sym, D["P"]]), ("empty sequence", [], D["L"]),
         ("vector", vfull, D["M"]), ("vector with some zero components", vmixed, D["C"]), ("zero vector", vzero, D["L"]), ("infinite/NaN vector", vinf, D["L"]),
         ("unit-less non-zero vector", vunitless, D["L"]), ("sequence of vectors", [vmixed, vzero, vfull], D["T"]), ("vector against a symbol", vfull, sym),
+        # elements that agree in dimension are still checked one by one (a zero matches anything and vouches for nothing), within a call and across calls
+        ("sequence with a zero before quantities of its dimension", [q0, q1, q1b, 0, 3, 3], D["M"]),
+        ("quantity after a call with a zero of its dimension", q1, D["M"], q0), ("sequence after a call with the same sequence", [q1, q2], D["C"], [q1, q2]),
     ]
-    for label, value, expected in cases:
+    for label, value, expected, *warmup in cases:
         run.ob("K3", label)
         R = GateReader(m.tree, "quantity_decorator.py")
         try:
+            if warmup:
+                R.call("_assert_expected_unit", [warmup[0], expected, "PARAM", "FUNC"])
+                del R.events[:]
             R.call("_assert_expected_unit", [value, expected, "PARAM", "FUNC"])
             raised = None
         except Raised as r:
@@ -428,7 +435,9 @@ def _k4(run: Run, w: World) -> None:
     fnode = next((s_ for s_ in m.tree.body if isinstance(s_, ast.FunctionDef) and s_.name == "assert_equivalent_dimension"), None)
     run.require(fnode is not None, "assert_equivalent_dimension not found")
     dims = {"1": Dim(), "angle": Dim.of(angle=1), "length": Dim.of(length=1), "angle*length": Dim.of(angle=1, length=1), "time": Dim.of(time=1),
-            "length/time": Dim.of(length=1, time=-1), "angle/time": Dim.of(angle=1, time=-1), "1/time": Dim.of(time=-1)}
+            "length/time": Dim.of(length=1, time=-1), "angle/time": Dim.of(angle=1, time=-1), "1/time": Dim.of(time=-1),
+            # a base dimension outside the seven SI ones that is NOT erased like angle (sympy's `information`: bit, byte)
+            "information": Dim.of(information=1), "information/time": Dim.of(information=1, time=-1)}
     arg_kinds = ["quantity", "zero quantity", "infinite quantity", "NaN quantity", "symbolic quantity", "dimension"]
     exp_kinds = ["dimension", "quantity", "zero quantity"]  # any_dimension as a declared dimension is outside the property (and no catalogue guard uses it: G2)
     reported = set()
@@ -489,6 +498,9 @@ def _k4(run: Run, w: World) -> None:
     if not any(dotted(b) == "ValueError" for b in cls.bases):
         run.violate("K4", "symplyphysics.core.errors:UnitsError:bases", err, cls, "UnitsError is no longer a ValueError")
     run.sample({"function": f"{DIMS}:assert_equivalent_dimension", "cases": n_cases})
+
+
+NUMERIC_CONVERSIONS = {"complex", "float", "int", "abs", "round", "N", "evalf", "n", "is_zero", "isinf", "isnan", "isfinite", "isclose", "sqrt", "log", "exp", "Abs"}
 
 
 def _membership(v: ast.AST, param: str):
